@@ -12,6 +12,9 @@ type EverythingOpts struct {
 	MaxDepth int
 	MaxWidth int
 	Plain    bool // plain-JSON example: no type shortcuts in value or key position, no allOf
+	// NoUnions: no or / enum-by-name / {type: "@T"} / additionalProperties: exactly one validator is
+	// alive at every position (needed where error positions must be exact).
+	NoUnions bool
 }
 
 // EveryCase is a generated schema plus the scalar cases (with boundary probes) embedded in it.
@@ -47,6 +50,11 @@ func (g *everyGen) scalar() *model.Node {
 	r := g.r
 	if r.Chance(1, 3) {
 		return scalarExample(r)
+	}
+	if g.o.NoUnions {
+		sc := Scalar(r)
+		g.out.Scalars[sc.Node] = sc
+		return sc.Node
 	}
 	if r.Chance(1, 8) {
 		n := model.Str("green").With(model.REnumRef("@colors"))
@@ -103,7 +111,11 @@ func (g *everyGen) node(depth int, isProp bool) *model.Node {
 		if !g.o.Plain && r.Chance(1, 6) {
 			n.Props = append(n.Props, model.PShort("@key", scalarExample(r)))
 		}
-		switch r.Intn(8) {
+		apChoice := r.Intn(8)
+		if g.o.NoUnions {
+			apChoice = 7
+		}
+		switch apChoice {
 		case 0:
 			n.Rules = append(n.Rules, model.RStr("additionalProperties", mon.Pick(r, []string{"any", "string", "integer", "boolean", "@int"})))
 		case 1:
